@@ -47,6 +47,25 @@ def split_model(ml):
     return a, b.split()
 
 
+def norm_noleader(line):
+    """midres <id> noleader <n> (<name> <nullable> <lr> <leader> f<flags>)*n <graph...>: when the build fails with
+    ErrNoLeader no parser is generated and ComputeLeftRecursives returns at the first component without a leader, so
+    which OTHER components already carry their leftRecursive/leader marks depends on the (map) order in which the
+    components are met. Those marks are not an observable result: they are blanked before comparing."""
+    f = line.split(" ")
+    if len(f) < 4 or f[2] != "noleader":
+        return line
+    try:
+        n = int(f[3])
+    except ValueError:
+        return line
+    for k in range(n):
+        i = 4 + 5 * k
+        if i + 3 < len(f):
+            f[i + 2], f[i + 3] = "-", "-"
+    return " ".join(f)
+
+
 def classify(cl, il, ml):
     """-> None | ('viol', text) | ('known', id, text) | ('obs', id)"""
     a, extra = split_model(ml)
@@ -113,6 +132,8 @@ def run_c07(prop, cfg, tier, seed):
         distinct.add(hashlib.md5(cl.split(" ", 2)[2].encode()).digest()[:8])
         v = il.split(" ", 3)[2]
         verdicts[v] = verdicts.get(v, 0) + 1
+        if il != a and norm_noleader(il) == norm_noleader(a):
+            a = il      # differs only in marks that are left behind by an aborted (ErrNoLeader) analysis
         if il != a:
             # the implementation left the model: does it also leave the specification where the model does not?
             lr_impl = v != "ok0"
@@ -134,6 +155,18 @@ def run_c07(prop, cfg, tier, seed):
             known_s.setdefault(c[1], (cl, il, c[2]))
         else:
             obs[c[1]] = obs.get(c[1], 0) + 1
+    # ---- shadowed duplicate definitions: references resolve to the last definition of a name, so must the analysis
+    dp = subprocess.run([PVMID, "-dup"], input=("\n".join(cases) + "\n").encode(), stdout=subprocess.PIPE, stderr=subprocess.PIPE, timeout=3600)
+    if dp.returncode != 0:
+        raise RuntimeError("pvmid -dup failed: " + dp.stderr.decode()[-2000:])
+    dup_checked = 0
+    for cl, dl in zip(cases, dp.stdout.decode().splitlines()):
+        f = dl.split(" ")
+        if len(f) == 5 and int(f[2]) > 0:
+            dup_checked += 1
+            if f[3] != f[4]:
+                viol.append((cl, dl, "", "builder.PrepareGrammar gives verdict %s for the grammar and %s after inserting shadowed (earlier, never executed) duplicate definitions of non-first rules: the analysis does not look at the definitions that the generated parser runs" % (f[3], f[4])))
+
     # ---- the consequence clause: a parser generated WITHOUT left-recursion support, for a grammar without a
     # same-position cycle, returns on every input (no unbounded re-entry). Generated non-left-recursive cases on the
     # real runtime (template variants without the left-recursion code) against the runtime model: only termination
@@ -209,6 +242,7 @@ def run_c07(prop, cfg, tier, seed):
                                           "the specification Mid.Spec.leftRec (Ford-style static same-position reachability, throw-free fragment)", "harness/cmd/pvmid"],
            "theorems": audit["theorems"], "axioms": audit["axioms"],
            "evaluations": len(cases) + rt_sr.cases, "distinct_nontrivial": len(distinct) + rt_sr.nontrivial,
+           "duplicate_definition_cases": dup_checked,
            "runtime_termination_stream": {"cases": rt_sr.cases, "non_terminating_or_crashing_on_impl_only": len(rt_sr.disagree),
                                           "inconclusive": rt_sr.inconclusive, "result_kinds": rt_sr.kinds},
            "rule": "random grammars of 1-4 rules biased towards references behind nullable prefixes, predicates and repetitions, each with up to 4 visiting orders; distinct = distinct (grammar, order)",
@@ -291,6 +325,8 @@ def run_c19(prop, cfg, tier, seed):
         a, _ = split_model(ml)
         mo = a.split(" ", 2)[2]
         # model line: "<verdict> <n> rules... <nverts> graph..." ; det outcome has no graph part
+        if outcome.startswith("noleader "):
+            mo = norm_noleader("midres 0 " + mo)[len("midres 0 "):]
         if not mo.startswith(outcome):
             disagree.append((cl, dl, ml))
     # tool level: the real binary, fresh processes
